@@ -64,6 +64,24 @@ Ov(mk) == IF "ov" \in DOMAIN mk THEN { mk.ov[i] : i \in 1..Len(mk.ov) } ELSE {}
 \* the name of the class's own (marking) function that does
 OwnBody(mk, e) == IF MethodOf(e.t) \in Ov(mk) THEN MethodOf(e.t) ELSE ""
 
+\* ---- round 4: the dispatch PATH of a node ------------------------------------
+\* Mapper.__call__ asks the node for ITS OWN mapper_method first ("direct").  When the
+\* mapper has no such method, the class-hierarchy fallback takes over: the node's MRO
+\* is searched for a base class whose mapper_method the mapper does have ("mro": a user
+\* subclass of a stock node, geometric_algebra.MultiVectorVariable -> map_variable);
+\* numbers, tuples and lists are not expressions and reach map_constant / map_tuple /
+\* map_list through map_foreign ("foreign").  The memoizing mappers have their own copy
+\* of this logic (CachedMapper.__call__ + rec_fallback, and the optimizer's inlined
+\* dispatch), so "the handler receives exactly the caller's extra arguments" must be
+\* established per path.  A leaf of a class the stock mappers know only through its
+\* base is the record [t |-> "Var", name, cls]: cls \in {"sub", "mv"} (user subclass
+\* with a mapper_method of its own that no mapper defines / MultiVectorVariable).  It
+\* is a different node from the plain Variable of the same name (Python: dataclass
+\* equality compares the classes).
+NodeCls(e) == IF "cls" \in DOMAIN e THEN e.cls ELSE ""
+DispatchPath(e) == IF NodeCls(e) # "" THEN "mro"
+                   ELSE IF e.t \in {"Const", "Tup", "List"} THEN "foreign" ELSE "direct"
+
 \* ---- suffix a renaming handler derives from the extra arguments ----------
 KindLetter(k) == CASE k = "int" -> "i" [] k = "bool" -> "b" [] k = "flt" -> "f"
                    [] k = "frac" -> "F" [] OTHER -> "?"
@@ -111,6 +129,9 @@ RecKids(mk, e) ==
     ELSE Kids(e)
 
 SeqUnion(rs) == UNION { rs[i].s : i \in 1..Len(rs) }
+\* what a renaming leaf handler returns: type(expr)(expr.name + "_r" + suffix) - a leaf of
+\* the SAME class, named after the extra arguments the handler received
+RenamedLeaf(e, a) == [e EXCEPT !.name = @ \o "_r" \o Sfx(a)]
 
 \* ---- the handler's own work, given the children's results ------------------
 \* the leaves of a probe result
@@ -120,7 +141,7 @@ Leaves(rs) == LET RECURSIVE Go(_) Go(i) == IF i > Len(rs) THEN << >> ELSE rs[i].
 BaseCombine(mk, e, a, rs) ==
     CASE mk.m \in {"ident", "subst"} ->
             IF e.t = "Var" THEN
-                (IF mk.m = "ident" THEN TreeR(V(e.name \o "_r" \o Sfx(a)))
+                (IF mk.m = "ident" THEN TreeR(RenamedLeaf(e, a))
                  ELSE IF e.name \in DOMAIN mk.map THEN TreeR(mk.map[e.name]) ELSE TreeR(e))
             ELSE IF e.t = "Const" THEN TreeR(e)
             \* a wrapper whose mapped child is false in Python collapses to the number 0
@@ -128,7 +149,7 @@ BaseCombine(mk, e, a, rs) ==
             ELSE IF e.t = "CSE" /\ Falsy(rs[1].e) THEN TreeR(KI(0))
             ELSE TreeR(WithKids(e, [i \in 1..Len(rs) |-> rs[i].e]))
       [] mk.m = "coll" ->
-            IF e.t = "Var" THEN SetR({ V(e.name \o "_r" \o Sfx(a)) })
+            IF e.t = "Var" THEN SetR({ RenamedLeaf(e, a) })
             ELSE IF e.t = "Const" THEN SetR({})
             ELSE SetR(SeqUnion(rs))
       \* the stock Collector: "by default, nothing is collected, all leaves return empty sets"
@@ -149,7 +170,7 @@ BaseCombine(mk, e, a, rs) ==
             ELSE SetR(SeqUnion(rs))
       [] mk.m = "walk" -> NoneR
       [] mk.m = "probe" ->
-            IF e.t = "Var" THEN ObjR(mk.eq, N("Tup", << V(e.name \o "_r" \o Sfx(a)) >>))
+            IF e.t = "Var" THEN ObjR(mk.eq, N("Tup", << RenamedLeaf(e, a) >>))
             ELSE IF e.t = "Const" THEN ObjR(mk.eq, N("Tup", << e >>))
             ELSE ObjR(mk.eq, N("Tup", Leaves(rs)))
 
